@@ -33,12 +33,12 @@ Section Spec.
     end.
 
   (** the arguments conform to the declared parameter types (occurrence, nillable, member types,
-      primitive domains); a bare argument that is written without content needs a nillable type
-      when the server validates softly *)
+      primitive domains); the argument of a bare method is the body element itself, which the published
+      schema does not declare nillable: it cannot be None (nor the empty byte string, its wire twin) *)
   Definition args_conf (i : nat) (m : method) (args : list val) : bool :=
     xconf L U fuel (fst (req_ty U0 i m)) (req_value i m args)
     && match eff_style m with EBare => Nat.eqb (length args) 1 | _ => true end
-    && (negb (nonelike (req_value i m args)) || negb (soft && negb (snd (req_ty U0 i m)))).
+    && negb (nonelike (req_value i m args)).
 
   (** header values: one per declared header class, each conforming to its class *)
   Definition hdrs_conf (cs : list cid) (hv : option (list val)) : bool :=
@@ -90,7 +90,7 @@ Section Spec.
   Definition ret_conf (i : nat) (m : method) (ret : val) : bool :=
     match ret_value i m ret with
     | Some v => xconf L U fuel (fst (resp_ty U0 i m)) v
-                && (negb (nonelike v) || negb (soft && negb (snd (resp_ty U0 i m))))
+                && negb (nonelike v)          (* a bare return value is the body element itself: not nillable in the schema *)
     | None => false
     end.
 
